@@ -106,7 +106,7 @@ def main(tier, replay):
             def line_of(fs):
                 # the driver line starts at the op name
                 for i, x in enumerate(fs):
-                    if x in ("GET", "BGET", "SCAN", "CACHE", "CLS", "LATER", "BBUF", "ALIAS", "OPTS"):
+                    if x in ("GET", "BGET", "SCAN", "CACHE", "CLS", "LATER", "BBUF", "ALIAS", "OPTS", "ATOMIC"):
                         return fs[i:]
                 return fs
 
